@@ -286,3 +286,53 @@ def ob_assignments_returned(ctx, num, key: str, label: str):
             ok, why = True, "returned directly"
         ctx.ob(num, "K6", f"[{label}] every Assignment constructed is handed to the executor (its operators were already moved to ASSIGNED by the constructor)", ok, f, c,
                construct="Assignment reaches the returned list", detail=why)
+
+
+def ob_retry_record_plain(ctx, num):
+    """RetryStats is a plain record: old_cpu / old_ram come out as they went in (the doubling, the half-pool cap and the resume size are
+    computed from them)."""
+    P = ctx.P
+    from ..util import attr_writes
+    m = P.mod("eudoxia/scheduler/waiting_queue.py")
+    cl = m.classes.get("RetryStats")
+    if cl is None:
+        raise AnalysisError("class RetryStats not found in eudoxia/scheduler/waiting_queue.py")
+    hooks = [n for n in cl.methods if n in ("__init__", "__post_init__", "__setattr__", "__getattribute__", "__getattr__", "__new__")]
+    props = [n for n, f in cl.methods.items() if any(isinstance(d, ast.Name) and d.id == "property" for d in f.decorators()) and n in ("old_cpu", "old_ram")]
+    ws = [w for a in ("old_cpu", "old_ram") for w in attr_writes(P, a, include_mutation=False)]
+    dec = [norm.U(d) for d in cl.node.decorator_list]
+    ok = not hooks and not props and not ws and any(d.split("(")[0].split(".")[-1] == "dataclass" for d in dec)
+    anchor = cl.methods[hooks[0]] if hooks else None
+    ctx.ob(num, "K6", "a retry record hands back old_cpu / old_ram exactly as they were stored (a plain dataclass: no hook rewrites the fields, nothing writes them later)",
+           ok, anchor, anchor.node if anchor else None, file="eudoxia/scheduler/waiting_queue.py", construct="RetryStats is a plain record",
+           detail=f"decorators: {dec}; hooks defined: {hooks}; properties over the fields: {props}; later writes: {[repr(w) for w in ws]}")
+
+
+LIST_MUTATORS = {"remove", "pop", "insert", "append", "extend", "clear", "sort", "reverse", "popleft", "appendleft"}
+
+
+def ob_no_mutation_while_iterating(ctx, num, key: str, label: str):
+    """No `for x in L` loop of the scheduler changes L inside its own body: removing or inserting while iterating makes the loop skip or
+    repeat elements (a job that is skipped stays queued for the round although it could have been placed)."""
+    P = ctx.P
+    f0 = scheduler(P, key)
+    n = 0
+    for f in module_helpers(P, f0):
+        for lp in [x for x in own_nodes(f.node) if isinstance(x, (ast.For, ast.AsyncFor))]:
+            it = lp.iter
+            if isinstance(it, ast.Call) and norm.call_name(it) in ("enumerate", "reversed", "iter") and it.args:
+                it = it.args[0]
+            t = norm.attr_chain(it) if isinstance(it, (ast.Name, ast.Attribute)) else None
+            if t is None:
+                continue
+            n += 1
+            bad = []
+            for b in lp.body + lp.orelse:
+                for x in ast.walk(b):
+                    if isinstance(x, ast.Call) and isinstance(x.func, ast.Attribute) and x.func.attr in LIST_MUTATORS and norm.attr_chain(x.func.value) == t:
+                        bad.append(x)
+                    if isinstance(x, ast.Delete) and any(isinstance(tg, ast.Subscript) and norm.attr_chain(tg.value) == t for tg in x.targets):
+                        bad.append(x)
+            ctx.ob(num, "K3", f"[{label}] a list is not changed inside the loop that walks it (a removal makes the loop skip the next element)", not bad, f, bad[0] if bad else lp,
+                   construct=f"for .. in {t}", detail=f"mutations of `{t}` inside its own loop: {[norm.U(b)[:60] if not isinstance(b, ast.Delete) else stmt_text(b) for b in bad]}")
+    return n
